@@ -73,4 +73,12 @@ def keepOutsideGuards : (pos : Nat) → List Line → List IfStmt → List Line
     let post := ls.drop (r.endLineno - pos)
     pre ++ (if r.isGuard then [] else blk) ++ keepOutsideGuards r.endLineno post rest
 
+/-! ### `sys.path` injections (statement level, repair F50) -/
+
+/-- The top-level statements at column 0, each marked (`isGuard` field of the range) with "its first
+line — read in the text as it is given — is an injection". These are the ranges `keepOutsideGuards`
+walks through: C13 asks that a marked statement goes with ALL its lines and that everything else stays. -/
+def injectionMarks (ls : List Line) (ss : List Stmt) : List IfStmt :=
+  (ss.filter (·.col0)).map fun s => ⟨s.lineno, s.endLineno, isInjection (ls.getD (s.lineno - 1) [])⟩
+
 end Paroxy.Cleanup.Spec
